@@ -139,11 +139,22 @@ def r04_3(ctx):
         # the two loops: outer token loop and inner text look-ahead loop
         heads = sorted({h for _, h in f.back_edges()})
         r.ob("tokens:loops", len(heads) == 2, f.site, "%d loops in HtmlFilterBodyAction::filter" % len(heads))
-        td = [l for l, (tix, name, user, mut) in enumerate(f.locals) if name == "token_data"]
-        if not td:
-            r.missing("local token_data")
+        # the variable holding the current token's text, by role: the user variable assigned from
+        # Tokenizer::raw_as_string()
+        sets = []
+        for h in heads:
+            for p in s.paths(start=h, stops=set(heads)):
+                for e in p.events:
+                    if e[0] in ("set", "init") and f.local_name(e[1]):
+                        sets.append((e[1], e[3]))
+        # (the `?` desugaring introduces immutable `val` bindings of the same value: the holder is the
+        # mutable String variable)
+        td = {l for l, v in sets if mentions(v, lambda x: x[0] == "call" and x[1] == TOK + "::raw_as_string")
+              and F.types[f.locals[l][0]]["s"] == "std::string::String" and f.locals[l][3]}
+        if len(td) != 1:
+            r.missing("the variable holding the current token text (assigned from raw_as_string): %s" % sorted(td))
             return
-        td = td[0]
+        td = td.pop()
         n = 0
         bad = []
         # outer loop = the one containing the other
@@ -209,10 +220,13 @@ def r04_4(ctx):
                 src = pv.operand(t["args"][1])
                 dst = pv.operand(t["args"][0])
                 appends.append((bi, dst, src, span_line(t["s"])))
+        # what the returned vector starts from
         ret_init = None
         for p in Sym(f, copies=True).paths():
+            if p.end[0] != "ret" or p.end[1][0] != "local":
+                continue
             for e in p.events:
-                if e[0] == "init" and e[2] == "to_return":
+                if e[0] == "init" and e[1] == p.end[1][1] and ret_init is None:
                     ret_init = e[3]
         held = [a for a in appends if mentions_field(a[2], "last_buffer", HF)]
         chain = [a for a in appends if mentions_field(a[2], "buffer", "filter::html_filter_body::BufferLink") or mentions(a[2], lambda x: x[0] == "call" and "next" in x[1])]
